@@ -123,7 +123,9 @@ def check_case(case):
 
     if res[0] == 'esc':
         labels.append('verdict:escape')
-        fails.append(('escape|%s|%s' % (res[1], res[2]), '%r raised %s: %s' % (s, res[1], res[3])))
+        # (an escape on a text the grammar oracle calls valid gets a tag of its own: the listed escapes from malformed text -
+        # an operator without operand, F-C18-3 - must not hide an escape from well-formed formulas)
+        fails.append(('escape|%s|%s%s' % (res[1], res[2], '|valid-text' if verdict == 'valid' else ''), '%r raised %s: %s' % (s, res[1], res[3])))
     elif res[0] == 'rej':
         labels.append('verdict:rejected')
         if verdict == 'valid':
